@@ -404,7 +404,7 @@ pub fn encode_plan(plan: &ChunkPlan, salt: u8) -> Coded {
         }
         push(&mut c, digits.as_bytes(), Tok::SizeDigits);
         if let Some(e) = ch.ext {
-            push(&mut c, e.as_bytes(), Tok::SizeExt);
+            push(&mut c, &ext_bytes(e), Tok::SizeExt);
         }
         push(&mut c, b"\r", Tok::SizeCr);
         push(&mut c, b"\n", Tok::SizeLf);
@@ -418,7 +418,7 @@ pub fn encode_plan(plan: &ChunkPlan, salt: u8) -> Coded {
     digits.push('0');
     push(&mut c, digits.as_bytes(), Tok::LastDigits);
     if let Some(e) = plan.last_ext {
-        push(&mut c, e.as_bytes(), Tok::LastExt);
+        push(&mut c, &ext_bytes(e), Tok::LastExt);
     }
     push(&mut c, b"\r", Tok::LastCr);
     push(&mut c, b"\n", Tok::LastLf);
@@ -433,8 +433,26 @@ pub fn encode_plan(plan: &ChunkPlan, salt: u8) -> Coded {
     c
 }
 
-pub const CHUNK_EXTS: [&str; 8] = [
+/// The bytes of an extension: the sign § stands for the single octet 0xE9 (obs-text inside a quoted-string is
+/// legal there and is not UTF-8; the extensions themselves are kept as `&str` for readability).
+pub fn ext_bytes(e: &str) -> Vec<u8> {
+    let mut v = Vec::with_capacity(e.len());
+    for c in e.chars() {
+        if c == '§' {
+            v.push(0xE9);
+        } else {
+            let mut b = [0u8; 4];
+            v.extend_from_slice(c.encode_utf8(&mut b).as_bytes());
+        }
+    }
+    v
+}
+
+pub const CHUNK_EXTS: [&str; 10] = [
     ";x",
+    // octets above 0x7f in a quoted extension value: not text, and none of the decoder's business
+    ";name=\"caf§\"",
+    ";a=\"§§\";b",
     // blanks in front of the ';' (allowed to a recipient as "bad whitespace", RFC 9112 section 7.1.1), few and many
     " \t;x",
     "                      ;pad=1",
